@@ -78,6 +78,9 @@ def program(draw: Any, n_obj: int | None = None, discrete_only: bool = False, ma
         # their own criteria): gives PRUNED trials with several reports whatever the pruner decides
         "self_prune": draw(st.one_of(st.none(), st.tuples(st.integers(1, 4), st.integers(0, 2), st.sampled_from([1, 1, 2, 3])).map(list))),
         "slope": draw(st.sampled_from([-0.5, -0.25, 0.0, 0.25, 0.5])),
+        # some reports are NaN / +inf / -inf (diverged training): report index s of trial number n
+        # is replaced when (n + s) % mod == r
+        "odd_reports": draw(st.one_of(st.none(), st.none(), st.none(), st.tuples(st.sampled_from([2, 3, 4]), st.integers(0, 3), st.sampled_from(["nan", "nan", "inf", "-inf"])).map(list))),
         "curve_on": draw(st.sampled_from(names)),
         # odd steps additionally depend on a second parameter, so that trials rank differently at
         # different steps
@@ -146,6 +149,9 @@ def make_objective(prog: dict[str, Any], rec: Recorder | None = None, sign: list
                 if s % 2 and prog.get("curve_on2") in num:
                     extra = num[prog["curve_on2"]]
                     v += math.floor(extra * 8) / 8 if dyadic else extra
+                odd = prog.get("odd_reports")
+                if odd is not None and (trial.number + s) % odd[0] == odd[1] % odd[0]:
+                    v = float(odd[2])
                 trial.report(sign[0] * v, step)
                 n_rep += 1
                 sp = prog.get("self_prune")
